@@ -135,29 +135,34 @@ func isContext(t types.Type) bool {
 // selectionRules: sibling filter agreement of the two find* functions and the nil-guarded store of bestConn.
 func (c *Ctx) selectionRules() {
 	const R = "E12.selection"
-	fb := c.mustFn(R, "liteapi/pool", "ConnPool.findBestPingConnection")
-	ff := c.mustFn(R, "liteapi/pool", "ConnPool.findFirstWorkingConnection")
 	ub := c.mustFn(R, "liteapi/pool", "ConnPool.updateBest")
-	if fb == nil || ff == nil || ub == nil {
+	if ub == nil {
 		return
 	}
-	// reject predicates of a function: the If conditions in its range loop, normalised so that the
+	// the two selection scans: the bodies of findBestPingConnection / findFirstWorkingConnection, or - when the
+	// scans are written out in updateBest - its loop that compares round-trip times and its other loop over IsOK
+	bu, fu := c.selectionUnits(R, ub)
+	if bu == nil || fu == nil {
+		return
+	}
+	fb := bu.f
+	// reject predicates of a scan: the If conditions in its range loop, normalised so that the
 	// "rejecting" polarity is explicit: (shape, rejectWhenTrue)
-	pa, pb := dedup(rejectPredicates(fb)), dedup(rejectPredicates(ff))
+	pa, pb := dedup(rejectPredicates(bu)), dedup(rejectPredicates(fu))
 	c.check(len(pa) == 2 && equalStrings(pa, pb), R, "both selection functions reject under the same predicates", fb.Pos(),
 		"reject predicates: "+strings.Join(pa, " ; "), fmt.Sprintf("the two selection strategies no longer skip a connection under the same conditions: best-ping {%s} vs first-working {%s}", strings.Join(pa, " ; "), strings.Join(pb, " ; ")))
 	// the staleness predicate tolerates exactly one block: seqno+1 compared with maxSeqno
 	tol := false
 	for _, p := range pa {
-		if strings.Contains(p, "+1)") && strings.Contains(p, "Seqno") && (strings.Contains(p, ")<$") || strings.Contains(p, ")>=$")) {
+		if l, op, _, ok := topSplit(p); ok && strings.HasSuffix(l, "+1)") && strings.Contains(l, "Seqno") && (op == "<" || op == ">=") {
 			tol = true
 		}
 	}
-	c.check(tol, R, "staleness filter is head+1 < max", fb.Pos(), "a connection at most one block behind the newest head is eligible", "the staleness filter no longer compares head seqno + 1 with the newest known seqno")
+	c.check(tol, R, "staleness filter is head+1 < max", fb.Pos(), "a connection at most one block behind the newest head is eligible", "the staleness filter no longer compares head seqno + 1 with the newest known seqno: reject predicates "+strings.Join(pa, " ; "))
 	// in findBestPing every value that flows into the loop-carried candidate / threshold is defined
 	// behind both reject filters
-	c.updatesBehindFilters(R, fb)
-	c.replacementKey(R, fb)
+	c.updatesBehindFilters(R, bu)
+	c.replacementKey(R, bu)
 	// "first working" means first in configuration order: the list both scans iterate is kept sorted by
 	// connection id by the only function that adds to it (connections finish their handshakes in any order)
 	if ad := c.mustFn(R, "liteapi/pool", "ConnPool.addConnection"); ad != nil {
@@ -228,10 +233,10 @@ func (c *Ctx) selectionRules() {
 		if !guarded {
 			okSt = false
 		}
-		if derivesFrom(st.Val, callResult(c.qn("liteapi/pool", "ConnPool.findBestPingConnection")), false) {
+		if derivesFrom(st.Val, bu.result(c, "ConnPool.findBestPingConnection"), false) {
 			fromBest = true
 		}
-		if derivesFrom(st.Val, callResult(c.qn("liteapi/pool", "ConnPool.findFirstWorkingConnection")), false) {
+		if derivesFrom(st.Val, fu.result(c, "ConnPool.findFirstWorkingConnection"), false) {
 			fromFirst = true
 		}
 	})
@@ -246,7 +251,40 @@ func (c *Ctx) selectionRules() {
 		}, false)
 	}
 	okMax, nSel := true, 0
-	for _, q := range []string{"ConnPool.findBestPingConnection", "ConnPool.findFirstWorkingConnection"} {
+	for i, q := range []string{"ConnPool.findBestPingConnection", "ConnPool.findFirstWorkingConnection"} {
+		u := []*selUnit{bu, fu}[i]
+		if !u.whole {
+			// the scan is a loop of updateBest: the seqno its staleness filter compares the head with
+			for b := range u.body {
+				iff := lastIf(b)
+				if iff == nil {
+					continue
+				}
+				bo, ok := iff.Cond.(*ssa.BinOp)
+				if !ok {
+					continue
+				}
+				// the head: computed in the loop from the element's MasterHead(); the threshold: defined before it
+				headOf := func(v ssa.Value) bool {
+					in, ok := v.(ssa.Instruction)
+					return ok && u.body[in.Block()] && strings.Contains(opTree(v, 0), "MasterHead")
+				}
+				var other ssa.Value
+				switch {
+				case headOf(bo.X) && !headOf(bo.Y):
+					other = bo.Y
+				case headOf(bo.Y) && !headOf(bo.X):
+					other = bo.X
+				default:
+					continue
+				}
+				nSel++
+				if !derivesFrom(other, isLoopMax, false) {
+					okMax = false
+				}
+			}
+			continue
+		}
 		for _, cl := range callsTo(ub, c.qn("liteapi/pool", q)) {
 			nSel++
 			if len(cl.Call.Args) < 2 || !derivesFrom(cl.Call.Args[1], isLoopMax, false) {
@@ -271,20 +309,15 @@ func equalStrings(a, b []string) bool {
 
 // rejectPredicates lists, in order, the conditions under which the loop body of a selection
 // function skips the current element (jumps back to the loop header without accepting it).
-func rejectPredicates(f *ssa.Function) []string {
+func rejectPredicates(u *selUnit) []string {
 	var out []string
-	var hdr *ssa.BasicBlock
-	for _, b := range f.Blocks {
-		if b.Comment == "rangeindex.loop" {
-			hdr = b
-		}
-	}
+	hdr := u.hdr
 	if hdr == nil {
 		return nil
 	}
-	for _, b := range f.Blocks {
+	for _, b := range u.f.Blocks {
 		ifi := lastIf(b)
-		if ifi == nil || b == hdr {
+		if ifi == nil || b == hdr || !u.body[b] {
 			continue
 		}
 		// an edge straight back to the loop header is a "continue"
@@ -303,7 +336,15 @@ func rejectPredicates(f *ssa.Function) []string {
 		// accept-style: "if cond { return c }" is the negation of a reject
 		for k, s := range b.Succs {
 			if len(s.Instrs) > 0 {
+				accept := false
 				if r, ok := s.Instrs[len(s.Instrs)-1].(*ssa.Return); ok && len(r.Results) == 1 && !isNilConst(retVal(r, 0)) && len(s.Instrs) <= 2 {
+					accept = true
+				}
+				// ... and so is "if cond { best = c; break }" when the scan is a loop of a larger function
+				if !u.whole && !u.body[s] {
+					accept = true
+				}
+				if accept {
 					sh := opTree(ifi.Cond, 0)
 					if k == 0 {
 						sh = "!" + sh
@@ -318,8 +359,49 @@ func rejectPredicates(f *ssa.Function) []string {
 	return out
 }
 
-// normPred normalises !(a>=b) to (a<b) etc.
+// topSplit splits "(L op R)" at its top-level comparison operator.
+func topSplit(s string) (l, op, r string, ok bool) {
+	if len(s) < 2 || s[0] != '(' || s[len(s)-1] != ')' {
+		return
+	}
+	depth := 0
+	for i := 1; i < len(s)-1; i++ {
+		switch s[i] {
+		case '(', '[':
+			depth++
+		case ')', ']':
+			depth--
+		case '<', '>':
+			if depth == 0 {
+				j := i + 1
+				if j < len(s) && s[j] == '=' {
+					j++
+				}
+				if j < len(s) && (s[j] == '<' || s[j] == '>') {
+					continue // a shift
+				}
+				if i > 0 && (s[i-1] == '<' || s[i-1] == '>') {
+					continue
+				}
+				return s[1:i], s[i:j], s[j : len(s)-1], true
+			}
+		}
+	}
+	return
+}
+
+// normPred normalises !(a>=b) to (a<b) etc., with the connection's head on the left.
 func normPred(s string) string {
+	s = normPred0(s)
+	headSide := func(x string) bool { return strings.Contains(x, "MasterHead") && strings.HasSuffix(x, "+1)") }
+	if l, op, r, ok := topSplit(s); ok && ((strings.Contains(r, "MasterHead") && !strings.Contains(l, "MasterHead")) || (headSide(r) && !headSide(l))) {
+		mirror := map[string]string{"<": ">", "<=": ">=", ">": "<", ">=": "<="}
+		return "(" + r + mirror[op] + l + ")"
+	}
+	return s
+}
+
+func normPred0(s string) string {
 	neg := strings.HasPrefix(s, "!")
 	if neg {
 		s = s[1:]
@@ -343,15 +425,10 @@ func normPred(s string) string {
 // updatesBehindFilters: an iteration that is rejected by a filter leaves the loop-carried state
 // unchanged: on every edge from a rejecting filter block back to the loop header, each header phi
 // receives its own previous value.
-func (c *Ctx) updatesBehindFilters(rule string, f *ssa.Function) {
-	var hdr *ssa.BasicBlock
-	for _, b := range f.Blocks {
-		if b.Comment == "rangeindex.loop" {
-			hdr = b
-		}
-	}
+func (c *Ctx) updatesBehindFilters(rule string, u *selUnit) {
+	f, hdr := u.f, u.hdr
 	if hdr == nil {
-		c.bad(rule, fnName(f)+" selection loop", f.Pos(), "selection loop not found")
+		c.bad(rule, u.label()+" selection loop", f.Pos(), "selection loop not found")
 		return
 	}
 	nFilters := 0
@@ -376,7 +453,7 @@ func (c *Ctx) updatesBehindFilters(rule string, f *ssa.Function) {
 			}
 		}
 	}
-	c.check(len(offenders) == 0 && nFilters == 2, rule, fnName(f)+" rejected iterations leave the running best unchanged", f.Pos(),
+	c.check(len(offenders) == 0 && nFilters == 2, rule, u.label()+" rejected iterations leave the running best unchanged", f.Pos(),
 		"on both reject edges every loop-carried value keeps its previous value", fmt.Sprintf("selection loop (%d reject filters found, 2 expected): %s", nFilters, strings.Join(offenders, "; ")))
 }
 
@@ -506,11 +583,20 @@ func phiSources(ph *ssa.Phi) map[*ssa.BasicBlock]ssa.Value {
 // replacementKey: in the best-ping scan the candidate's round-trip time is compared with the
 // round-trip time of the CURRENT best: either obtained from the running best itself, or from a
 // loop-carried copy that is updated on exactly the edges on which the running best is.
-func (c *Ctx) replacementKey(R string, f *ssa.Function) {
+func (c *Ctx) replacementKey(R string, u *selUnit) {
+	f := u.f
 	var best *ssa.Phi
 	allInstrs(f, func(_ *ssa.BasicBlock, in ssa.Instruction) {
 		// the running best: the loop-carried value of the connection interface type that the function returns
-		if ph, ok := in.(*ssa.Phi); ok && best == nil && inLoop(ph.Block()) && types.Identical(ph.Type(), f.Signature.Results().At(0).Type()) {
+		// (or, for a scan written out in updateBest, the loop-carried connection of that loop)
+		ph, ok := in.(*ssa.Phi)
+		if !ok || best != nil {
+			return
+		}
+		if u.whole && inLoop(ph.Block()) && types.Identical(ph.Type(), f.Signature.Results().At(0).Type()) {
+			best = ph
+		}
+		if !u.whole && ph.Block() == u.hdr && types.IsInterface(ph.Type()) {
 			best = ph
 		}
 	})
@@ -530,7 +616,7 @@ func (c *Ctx) replacementKey(R string, f *ssa.Function) {
 	why := ""
 	for _, b := range f.Blocks {
 		iff := lastIf(b)
-		if iff == nil {
+		if iff == nil || !u.body[b] {
 			continue
 		}
 		bo, ok := iff.Cond.(*ssa.BinOp)
@@ -792,4 +878,107 @@ func (c *Ctx) waitPolarity() {
 			c.check(same, R, "waiters are told about heads of the best connection only", in.Pos(), "send behind update.Conn.ID() == bestConn.ID()", "notifySubscribers forwards a head update to the waiters on the path where it does NOT come from the best connection (and drops those that do): waiters are woken by a server that may be ahead of the one requests go to, or never woken")
 		})
 	}
+}
+
+// selUnit: one selection scan of the pool - a whole helper function (its range loop), or one loop of updateBest.
+type selUnit struct {
+	f     *ssa.Function
+	hdr   *ssa.BasicBlock
+	body  map[*ssa.BasicBlock]bool
+	whole bool
+	name  string
+}
+
+func (u *selUnit) label() string {
+	if u.whole {
+		return fnName(u.f)
+	}
+	return fnName(u.f) + " " + u.name
+}
+
+// result: the predicate "this value is what the scan selected".
+func (u *selUnit) result(c *Ctx, helper string) func(ssa.Value) bool {
+	if u.whole {
+		return callResult(c.qn("liteapi/pool", helper))
+	}
+	return func(v ssa.Value) bool {
+		in, ok := v.(ssa.Instruction)
+		return ok && u.body[in.Block()]
+	}
+}
+
+// naturalLoop: the blocks dominated by hdr from which hdr is reachable.
+func naturalLoop(hdr *ssa.BasicBlock) map[*ssa.BasicBlock]bool {
+	out := map[*ssa.BasicBlock]bool{}
+	for _, b := range hdr.Parent().Blocks {
+		if hdr.Dominates(b) && reachableFrom(b, nil)[hdr] {
+			out[b] = true
+		}
+	}
+	return out
+}
+
+func (c *Ctx) selectionUnits(R string, ub *ssa.Function) (best, first *selUnit) {
+	wholeUnit := func(f *ssa.Function) *selUnit {
+		u := &selUnit{f: f, whole: true, body: map[*ssa.BasicBlock]bool{}}
+		for _, b := range f.Blocks {
+			u.body[b] = true
+			if b.Comment == "rangeindex.loop" {
+				u.hdr = b
+			}
+		}
+		return u
+	}
+	if f := c.fn("liteapi/pool", "ConnPool.findBestPingConnection"); f != nil {
+		best = wholeUnit(f)
+	}
+	if f := c.fn("liteapi/pool", "ConnPool.findFirstWorkingConnection"); f != nil {
+		first = wholeUnit(f)
+	}
+	if best != nil && first != nil {
+		return
+	}
+	// written out in updateBest: its loops that test IsOK on the element
+	invokes := func(body map[*ssa.BasicBlock]bool, name string) bool {
+		for b := range body {
+			for _, in := range b.Instrs {
+				if cl, ok := in.(*ssa.Call); ok && cl.Call.IsInvoke() && cl.Call.Method.Name() == name {
+					return true
+				}
+			}
+		}
+		return false
+	}
+	for _, b := range ub.Blocks {
+		isHdr := false
+		for _, p := range b.Preds {
+			if b.Dominates(p) && p != b {
+				isHdr = true
+			}
+		}
+		if !isHdr {
+			continue
+		}
+		body := naturalLoop(b)
+		if !invokes(body, "IsOK") && !invokes(body, "AverageRoundTrip") {
+			continue
+		}
+		u := &selUnit{f: ub, hdr: b, body: body}
+		if invokes(body, "AverageRoundTrip") {
+			if best == nil {
+				u.name = "best-ping loop"
+				best = u
+			}
+		} else if first == nil {
+			u.name = "first-working loop"
+			first = u
+		}
+	}
+	if best == nil {
+		c.bad(R, "anchor liteapi/pool.ConnPool.findBestPingConnection", token.NoPos, "the best-ping scan was found neither as ConnPool.findBestPingConnection nor as a loop of updateBest over IsOK and AverageRoundTrip (renamed/removed?) - property cannot be decided")
+	}
+	if first == nil {
+		c.bad(R, "anchor liteapi/pool.ConnPool.findFirstWorkingConnection", token.NoPos, "the first-working scan was found neither as ConnPool.findFirstWorkingConnection nor as a loop of updateBest over IsOK (renamed/removed?) - property cannot be decided")
+	}
+	return
 }
